@@ -9,6 +9,10 @@
   of a body; `_OpenImpl` may be blocked in `ar.get()` on the initial ping (`opening`); the ping
   helper may be blocked in `ar.wait(5)` (`pingWait`); the ping loop may be asleep.  Each
   blocking I/O call takes its outcome as a parameter of the operation that lets it return.
+  The receive loop does not dispatch a frame itself: it spawns one `_ProcessReply` greenlet
+  per frame (`pending`, oldest first) which `_Shutdown` does not kill; they run when the
+  receive loop next yields — after the reads that were already buffered, and after the
+  `_Shutdown` that a failing one of those reads causes (`burst`).
   Time is abstract: `pingDue` is "the ping loop's sleep ends", `pingSilence` is "five seconds
   passed since the ping was queued and no Rping arrived".  Tags are opaque keys (the tag pool
   is C11's subject): the tag the pool handed out is a parameter of `req`.  Import-free.
@@ -63,11 +67,12 @@ structure St where
   rl : RL
   pingLoop : Bool               -- the ping loop is alive (asleep)
   pingWait : Bool               -- a ping is outstanding and its helper waits
+  pending : List Frame          -- frames read whose `_ProcessReply` greenlet has not run yet
   deriving Repr, DecidableEq
 
 def St.init : St :=
   { cstate := .idle, hasOpenResult := false, opening := false, openRes := .none, tagMap := [],
-    sendQ := [], sl := .dead, rl := .dead, pingLoop := false, pingWait := false }
+    sendQ := [], sl := .dead, rl := .dead, pingLoop := false, pingWait := false, pending := [] }
 
 structure Out where
   eff : Eff := {}
@@ -80,13 +85,17 @@ def St.pump (s : St) : St :=
   | .waitQ, it :: rest => { s with sl := .writing it, sendQ := rest }
   | _, _ => s
 
-/-- `_Shutdown(reason, fault)` (both classes) followed by a drain -/
+/-- `_Shutdown(reason, fault)` (both classes).  The loops, the ping loop and the ping helper are
+    gone, the outstanding ping is retired (repair F4c: a late Rping finds no ping to answer);
+    `_ProcessReply` greenlets already spawned are *not* killed: they run later and find an empty
+    tag map. -/
 def St.shutdown (s : St) (fault : Bool) : St × Eff :=
   if s.cstate = .closed then (s, {})
   else
     ({ cstate := .closed, hasOpenResult := false, opening := false,
        openRes := if s.openRes = .pending then .failed else s.openRes,
-       tagMap := [], sendQ := [], sl := .dead, rl := .dead, pingLoop := false, pingWait := false },
+       tagMap := [], sendQ := [], sl := .dead, rl := .dead, pingLoop := false, pingWait := false,
+       pending := s.pending },
      { faults := if fault then 1 else 0, dels := s.tagMap.map (fun p => (p.2, Resp.cerr)) })
 
 /-- `Open()` followed by a drain -/
@@ -132,18 +141,51 @@ def St.process (s : St) (f : Frame) : St × Eff :=
                 sendQ := s.sendQ.filter (fun it => it ≠ .req tag id) }, { dels := [(id, .stream)] })
     | none => (s, {})
 
-/-- the pending read of the receive loop returns -/
-def St.rd (s : St) (o : IOOut) (f : Frame) : St × Out :=
+/-- one pending read of the receive loop returns.  A completed frame is handed to a new
+    `_ProcessReply` greenlet (`gevent.spawn`), which does not run yet. -/
+def St.rdRaw (s : St) (o : IOOut) (f : Frame) : St × Eff :=
   match s.rl with
   | .dead => (s, {})
   | .hdr =>
     match o with
     | .ok => ({ s with rl := .body }, {})
-    | _ => let (s', e) := s.shutdown true; (s', { eff := e })
+    | _ => s.shutdown true
   | .body =>
     match o with
-    | .ok => let (s', e) := ({ s with rl := .hdr } : St).process f; (s', { eff := e })
-    | _ => let (s', e) := s.shutdown true; (s', { eff := e })
+    | .ok => ({ s with rl := .hdr, pending := s.pending ++ [f] }, {})
+    | _ => s.shutdown true
+
+/-- the reads of a burst return one after the other without the receive loop yielding -/
+def St.rdMany (s : St) : List (IOOut × Frame) → St × Eff
+  | [] => (s, {})
+  | (o, f) :: rest =>
+    let (s1, e1) := s.rdRaw o f
+    let (s2, e2) := s1.rdMany rest
+    (s2, { faults := e1.faults + e2.faults, dels := e1.dels ++ e2.dels, conns := e1.conns + e2.conns })
+
+/-- the `_ProcessReply` greenlets of the frames `fs` run, oldest first -/
+def dispatchGo : List Frame → St → St × List (Nat × Resp)
+  | [], s => (s, [])
+  | f :: fs, s =>
+    let (s1, e1) := s.process f
+    let (s2, d2) := dispatchGo fs s1
+    (s2, e1.dels ++ d2)
+
+/-- the drain after the receive loop yields: every pending `_ProcessReply` greenlet runs -/
+def St.dispatch (s : St) : St × List (Nat × Resp) :=
+  dispatchGo s.pending { s with pending := [] }
+
+/-- the pending read of the receive loop returns, and so do the reads that follow it in `rs`
+    (their bytes, or the end of stream / error, are already there): no other greenlet runs in
+    between.  Then the drain: the `_ProcessReply` greenlets of the frames completed meanwhile
+    run — also if one of the reads failed and `_Shutdown` ran first. -/
+def St.burst (s : St) (rs : List (IOOut × Frame)) : St × Out :=
+  let (s1, e1) := s.rdMany rs
+  let (s2, d2) := s1.dispatch
+  (s2, { eff := { e1 with dels := e1.dels ++ d2 } })
+
+/-- the pending read of the receive loop returns; drain -/
+def St.rd (s : St) (o : IOOut) (f : Frame) : St × Out := s.burst [(o, f)]
 
 /-- the ping loop wakes up and sends a ping -/
 def St.pingDue (s : St) : St × Out :=
